@@ -80,7 +80,7 @@ func main() {
 	r := ev.Start("C16")
 	defer r.RecoverMain()
 	defer world.Cleanup()
-	r.SetBudget(ev.Pick(r, 800*time.Second, 40*time.Minute))
+	r.SetBudget(ev.Pick(r, 1300*time.Second, 40*time.Minute))
 	r.Assume("bounded liveness: after the explored part of an execution, faults stop, in-progress work completes and two more storage polls fire (closing phase); then the newest decodable snapshot of every other instance must have been returned by Next()",
 		"re-delivery of an older or already delivered snapshot is not a violation (merging is idempotent)",
 		"memory limits are read from the lightningstream_climit_active gauge at every quiescent point")
